@@ -540,3 +540,59 @@ def oracle_resolveall(line, out):
             if c:
                 return f"after resolution: {c} (segments {i},{j})"
     return None
+
+
+# ------------------------------------------------------------------ C20
+def parse_calls(s, with_count=False):
+    out = []
+    for e in [t for t in s.split(";") if t]:
+        f = e.split(":")
+        d = {"ins": f[0] == "1", "chrom": int(f[1]), "rs": int(f[2]), "re": int(f[3]), "qids": ints(f[4]),
+             "len": frac(f[7])}
+        if with_count:
+            d["count"] = int(f[8])
+        out.append(d)
+    return out
+
+
+def oracle_cluster(line, out):
+    op, kv = kv_of(line)
+    if out.startswith("ERR"):
+        return f"exception {out}"
+    calls = parse_calls(kv.get("CALLS", ""))
+    cl = parse_calls(out, True)
+    if sum(c["count"] for c in cl) != len(calls):
+        return f"Count values sum to {sum(c['count'] for c in cl)}, input has {len(calls)} calls"
+    ids_in = [q for c in calls for q in c["qids"]]
+    ids_out = [q for c in cl for q in c["qids"]]
+    if sorted(ids_in) != sorted(ids_out):
+        return "query ids lost, invented or duplicated by clustering"
+    i = 0
+    for c in cl:
+        members = calls[i:i + c["count"]]
+        i += c["count"]
+        if [q for m in members for q in m["qids"]] != c["qids"]:
+            return "cluster members are not a consecutive group of the input"
+        for m in members:
+            if m["ins"] != c["ins"] or m["chrom"] != c["chrom"]:
+                return "a cluster mixes indel types or chromosomes"
+            if not (c["rs"] <= m["rs"] and m["re"] <= c["re"]):
+                return "a cluster's reference interval does not cover a member"
+    return None
+
+
+def oracle_call(line, out):
+    op, kv = kv_of(line)
+    lo = int(kv["lo"])
+    rs, re_, qs, qe = int(kv["rs"]), int(kv["re"]), int(kv["qs"]), int(kv["qe"])
+    diff = abs(rs - re_) - abs(qs - qe)
+    if out.startswith("ERR"):
+        return f"exception {out}"
+    if out == "none":
+        return None if not (lo < abs(diff) < 100000) else f"call with Length {diff} not reported"
+    c = parse_calls(out, True)[0]
+    if c["len"] != diff:
+        return f"Length {c['len']} is not reference gap - query gap = {diff}"
+    if c["ins"] != (diff < 0):
+        return f"type insertion={c['ins']} but Length {diff}"
+    return None
